@@ -271,7 +271,11 @@ struct WkdRun {
         resolve(keys[pi].pat, op.s, 0, false, from, cur);
         size_t pl = count_free(keys[pi].pat);
         KeyM k = newkey(std::max((size_t) sys.l - from.size(), pl));
-        { JAttrs ja(from, false); call_begin(1); R.jv_wk_nd_qualifykey(view, k.sk, sys.params, keys[pi].sk, &ja.l); }
+        // one time in six the key to be adjusted was derived with the omit-all flag: same a0/a1, no free-slot entries at all. The adjustment
+        // (whose lists do not carry the flag) must still produce the key for `to`, free slots included - it may not rely on what sk.b held.
+        bool start_omit_all = ((op.arg(0) >> 5) % 6) == 0;
+        { JAttrs ja(from, start_omit_all); call_begin(1); R.jv_wk_nd_qualifykey(view, k.sk, sys.params, keys[pi].sk, &ja.l); }
+        if (start_omit_all) { for (auto& sl : cur) if (sl.st == ST_FREE) sl.st = ST_HIDDEN; env.count("probe:adjusted_key_was_derived_with_omit_all"); }
         k.rho = keys[pi].rho; k.pat = cur; k.ndchild = true; k.ndparent = (int) pi; k.ndlist = from;
         keys.push_back(std::move(k)); size_t ki = keys.size() - 1;
         check_key(keys[ki], "C11", "nondelegable_qualifykey(before adjust) parent " + pat_str(keys[pi].pat) + " attrs " + list_str(from), false);
@@ -284,6 +288,7 @@ struct WkdRun {
             if (((op.arg(0) >> 8) + (int64_t) b) % 4 == 0) {
                 alt = op.s; size_t l = (size_t) sys.l;
                 for (size_t i = 0; i < l; i++) alt[b * l + i] = op.s[(b - 1) * l + i];
+                if (((op.arg(0) >> 3) + (int64_t) b) % 3 != 0)   // (one such block in three keeps the list exactly as it is: adjusting to the same list)
                 for (size_t i = l; i-- > 0;) { const std::string& t = alt[b * l + i]; if (keys[pi].pat[i].st == ST_FREE && (t.compare(0, 2, "f:") == 0 || t[0] == 'h')) { alt[b * l + i] = "-"; break; } }
             }
             resolve(keys[pi].pat, alt.empty() ? op.s : alt, b * (size_t) sys.l, false, to, nxt);
